@@ -173,7 +173,8 @@ def layout(ctx, lay=(0, 2, 1)):
             ctx.prove("scalar entry back in its slot", ctx.all([np.ndim(Y[i]) == 0, _same(ctx, Y[i], X[i])]))
         else:
             ctx.prove("array entry keeps its shape", np.shape(Y[i]) == (sz,))
-            ctx.prove("array entry back in its slot", ctx.all([_same(ctx, Y[i][j], X[i][j]) for j in range(sz)]))
+            if np.shape(Y[i]) == (sz,):
+                ctx.prove("array entry back in its slot", ctx.all([_same(ctx, Y[i][j], X[i][j]) for j in range(sz)]))
     # flat order is entry order
     k = 0
     for i, sz in enumerate(lay):
@@ -209,7 +210,9 @@ def coupler(ctx, lay1=(2,), lay2=(0, 1), kind="euler"):
             if sz == 0:
                 ctx.prove("coupled round trip: scalar slot", _same(ctx, Y[mi][i], X[mi][i]))
             else:
-                ctx.prove("coupled round trip: array slot", ctx.all([np.shape(Y[mi][i]) == (sz,)] + [_same(ctx, Y[mi][i][j], X[mi][i][j]) for j in range(sz)]))
+                ctx.prove("coupled round trip: array slot keeps its shape", np.shape(Y[mi][i]) == (sz,))
+                if np.shape(Y[mi][i]) == (sz,):
+                    ctx.prove("coupled round trip: array slot", ctx.all([_same(ctx, Y[mi][i][j], X[mi][i][j]) for j in range(sz)]))
     shp = lambda lay: [() if s == 0 else (s,) for s in lay]
     d = c.getdXdt(0.0, X)
     ctx.prove("each model's derivative callback sees its own layout", [e for e in log["f"]] == [(0, shp(lay1)), (1, shp(lay2))])
